@@ -177,6 +177,16 @@ func solveAll(obls []*Obligation, dir string, timeoutS int, seed int, all bool, 
 			q := o.decls.Query(o.Asms, o.Goal, o.GetVals)
 			file := filepath.Join(dir, fmt.Sprintf("%04d_%s.smt2", i, sanitize(o.Name)))
 			o.Res = solve(q, file, timeoutS, seed, all)
+			if o.Res.Status == "unknown" && !all && o.Res.Solver == "none" {
+				// nobody answered within the quick budget (a loaded machine, or a hard goal): one
+				// more attempt with all back ends at once and four times the budget before the
+				// obligation is reported as undecided
+				r2 := solve(q, file, timeoutS*4, seed, true)
+				if r2.Status != "unknown" {
+					r2.Seconds += o.Res.Seconds
+					o.Res = r2
+				}
+			}
 		}(i, o)
 	}
 	wg.Wait()
